@@ -89,11 +89,21 @@ func loadMutants(verif, prop string) ([]Mutant, error) {
 			continue
 		}
 		var meta struct {
-			ID       string `json:"id"`
-			Property string `json:"property"`
-			Note     string `json:"note"`
+			ID         string   `json:"id"`
+			Property   string   `json:"property"`
+			Properties []string `json:"properties"`
+			Note       string   `json:"note"`
 		}
-		if json.Unmarshal(b, &meta) != nil || meta.Property != prop {
+		if json.Unmarshal(b, &meta) != nil {
+			continue
+		}
+		match := meta.Property == prop
+		for _, p := range meta.Properties {
+			if p == prop {
+				match = true
+			}
+		}
+		if !match {
 			continue
 		}
 		ms = append(ms, Mutant{ID: meta.ID, Property: prop, Benign: true, Patch: filepath.Join(filepath.Dir(mp), "patch.diff"), Note: "behaviour-preserving patch: " + meta.Note})
